@@ -153,7 +153,7 @@ def run(P, R, tier):
     from rules import common as _common
     _common.forward(P, R, 'C08', ['C08.*'], 'C09.a', 'rows are indexed by their Hilbert distance (C08) against the frame total bounds', floor=10)
     _common.forward(P, R, 'C06', ['C06.b'], 'C09.a', 'the frame-level total bounds every partition measures against (Dask total_bounds)', floor=2)
-    _common.forward(P, R, 'C16', ['C16.a'], 'C09.a', '(S10) dask identifies the input frames by token: whatever reads an array\'s raw buffers (a tokeniser included) applies its offset/length, or equal-length slices of one parent collapse into one collection',
+    _common.forward(P, R, 'C16', ['C16.a', 'C16.f'], 'C09.a', '(S10) dask identifies the input frames by token: whatever reads an array\'s raw buffers (a tokeniser included) applies its offset/length, or equal-length slices of one parent collapse into one collection',
                     floor=0, only=lambda o: o.status == 'violated' or 'raw' in (o.detail or ''))
     _common.forward(P, R, 'C12', ['C12.i'], 'C09.a', 'the frame total bounds are reduced from cached partition bounds only when EVERY dataset has them', floor=0)
     _common.forward(P, R, 'C13', ['C13.c'], 'C09.a', 'the boxes of point rows are the points themselves, masked by the validity bitmap (missing rows have no box)', floor=3)
